@@ -30,6 +30,13 @@ void vp_native_assume(int c);
 #define VP_ASSUME(c) vp_native_assume(c)
 #define VP_REACH(m) ((void)0)
 #endif
+/* LLVM computes pointer differences on integers (always defined, also speculatively for unrelated pointers); the C pointer
+   subtraction is used only where it is defined (same object), so that CBMC evaluates it on offsets */
+#if defined(__CPROVER__) || defined(VP_CBMC_BUILD)
+#define VP_PTRDIFF(a, b) ((const char *)(a) == (const char *)(b) ? 0L : __CPROVER_same_object((const char *)(a), (const char *)(b)) ? (long)((const char *)(a) - (const char *)(b)) : (long)((unsigned long)(a) - (unsigned long)(b)))
+#else
+#define VP_PTRDIFF(a, b) ((long)((unsigned long)(a) - (unsigned long)(b)))
+#endif
 /* zero-length copies are no-ops whatever the pointers are (memcpy(dst, NULL, 0) is what vector/optional code does for
    empty ranges; it is formally undefined in ISO C but not a memory-safety event) */
 #define vp_memcpy(d, s, n) do { unsigned long vp_n_ = (n); if (vp_n_) memcpy((d), (s), vp_n_); } while (0)
